@@ -25,6 +25,15 @@ func DocJSON(i int, variant int) string {
 		`"one":{"k":"v%d"},"items":[{"p":"x%dz1","q":%d},{"p":"y%dz2","q":%d}],`+
 		`"nest":{"c":"z%dXq"},"txt":" a  b%d ","dups":["a","a","b%d","a","c","b%d"]`,
 		i, i, i+1, i, i+10, i, i, i, i, i, i, i, i+1, i, i, i, i)
+	// the same paths hold values of different kinds in different documents
+	switch i % 3 {
+	case 0:
+		base += fmt.Sprintf(`,"poly":%d,"mixed":[{"v":%d},{"v":1},{"v":7}]`, i+2, i+3)
+	case 1:
+		base += fmt.Sprintf(`,"poly":"p%d","mixed":[{"v":"m%d"},{"v":"a"},{"v":"z"}]`, i, i)
+	default:
+		base += fmt.Sprintf(`,"poly":[%d,"x"],"mixed":[{"v":%d},{"w":1}]`, i, i)
+	}
 	switch variant % 3 {
 	case 1:
 		base += `,"nil":null,"e":{},"ea":[],"metas":[{},{"a":1},{}]`
@@ -332,6 +341,15 @@ func (g *Gen) Transform(d int) string {
 		`items ~> |$|{"p": $uppercase(p)}|`,
 		`$ ~> |items|{}, ["p", "q"]|`,
 		`($t := |items|{"r": 1}|; $ ~> $t ~> $t)`,
+		// updates whose values are containers of the input (the result then
+		// aliases the caller's data), followed by a transform that targets them
+		`$ ~> |items|{"ref": $$.one}| ~> |items.ref|{"x": 1}|`,
+		`$ ~> |nest|{"o": $$.items[0]}| ~> |nest.o|{}, "p"|`,
+		`$ ~> |$|{"cp": one}| ~> |cp|{"k": "w"}|`,
+		`$ ~> |$|{"cfg": $dv.one}| ~> |cfg|{"z": 1}|`,
+		`$ ~> |one|{"all": $$.items}| ~> |one.all|{"q": 0}|`,
+		`($t := $ ~> |items|{"ref": $$.nest}|; $t ~> |items[0].ref|{"c": "w"}|)`,
+		`items ~> |$|{"root": $$.one}| ~> |$.root|{"k": "changed"}|`,
 		// patterns that select empty containers
 		`$ ~> |e|{"seen": true}|`,
 		`$ ~> |metas|{"seen": true}|`,
@@ -472,7 +490,11 @@ func (g *Gen) Any(d int) string {
 	case 5:
 		return g.Bool(d)
 	default:
-		return g.pick(`null`, `nosuch`, `nil`, `ea`, `e`, `one`, `name`, `nums`)
+		return g.pick(`null`, `nosuch`, `nil`, `ea`, `e`, `one`, `name`, `nums`,
+			// paths whose values are of different kinds in different documents
+			`poly`, `mixed.v`, `mixed^(v).v`, `mixed^(>v)[0].v`, `$sort(mixed.v)`, `$max(mixed.v)`, `$sum(mixed.v)`,
+			`poly + 1`, `$length(poly)`, `$string(poly)`, `$type(poly)`, `mixed[v = 1]`, `$join(mixed.v)`, `poly & ""`,
+			`$number(poly)`, `mixed{$string(v): $count($)}`, `$distinct(mixed.v)`, `$reverse(mixed.v)`, `[poly][0]`)
 	}
 }
 
@@ -579,6 +601,16 @@ var Catalogue = []Program{
 	{`$fromMillis(1510067557121, "[H01]:[m01] [Z]")`, "str"},
 	{`$toMillis("2017-11-07", "[Y0001]-[M01]-[D01]")`, "num"},
 	{`$toMillis("07/11/2017", "[D01]/[M01]/[Y0001]")`, "num"},
+	// one timestamp per default layout of $toMillis (no picture)
+	{`$toMillis("2017-11-07T12:28:31+05:30")`, "num"},
+	{`$toMillis("2017-11-07T12:28:31+0530")`, "num"},
+	{`$toMillis("2017-11-07T12:28:31Z")`, "num"},
+	{`$toMillis("2017-11-07T12:28:31")`, "num"},
+	{`$toMillis("2017-11-07")`, "num"},
+	{`$toMillis("2017")`, "num"},
+	{`$toMillis("12:28 07.11.2017", "[H01]:[m01] [D01].[M01].[Y0001]")`, "num"},
+	{`$fromMillis(1510067557121)`, "str"},
+	{`$fromMillis(1510067557121, (), "-0330")`, "str"},
 	{`$replace("abcabc", /b/, "X")`, "str"},
 	{`$replace("abcabc", /b/, "X", 1)`, "str"},
 	{`$split("a1b22c", /\d+/)`, "arrs"},
